@@ -101,8 +101,8 @@ pub fn run(run: &'static Run) {
     special_bytes.extend([&b"\xff"[..], b"\xff\nhost=x", b"\xff\0", b"a\xff\r", b"\xff\n"]);
     let max_special = run.pick(2usize, 3);
     run.rule(format!(
-        "six fields protocol/host/path/username/password/url; every combination in which at most {max_special} fields take a special value and the others are absent or one of {:?}; \
-         special values (text fields) = LF, NUL, CR each alone / first / inner / LAST byte, plus others: {:?}; path/url additionally {:?}; x quit {{unset, true, false}}. \
+        "six fields protocol/host/path/username/password/url; every combination in which at most 2 fields take a special value (thorough: also exactly {max_special} fields over the core special values: LF/NUL/CR at every position, blank/TAB/NBSP alone or trailing) and the others are absent or one of {:?}; \
+         special values (text fields) = LF, NUL, CR each alone / first / inner / LAST byte, whitespace (blank, TAB, form feed, NBSP) alone / leading / trailing, plus others: {:?}; path/url additionally {:?}; x quit {{unset, true, false}}. \
          oracle: the bytes written never contain an empty line before their end, every attribute line a helper reads is a verbatim field, a value with LF/NUL is refused, and an accepted context decodes to the same context (all fields). \
          non-trivial = context accepted and fully round-tripped",
         plain.iter().map(|v| B::new(v)).collect::<Vec<_>>(),
@@ -138,7 +138,22 @@ pub fn run(run: &'static Run) {
                 }
                 cur.pop();
             }
-            rec(0, 0, max_special, &mut Vec::new(), &plain, &special, &special_bytes, !quick, emit);
+            // all combinations with at most two special fields over the full special alphabet
+            rec(0, 0, 2, &mut Vec::new(), &plain, &special, &special_bytes, !quick, emit);
+            if max_special > 2 {
+                // thorough: additionally exactly three special fields over the core special values
+                // (LF / NUL / CR at every position, and blank / TAB / NBSP alone or trailing)
+                let core: Vec<&[u8]> = special.iter().copied().filter(|v| v.len() <= 3 && (v.iter().any(|b| b"\n\0\r".contains(b)) || [&b" "[..], b"a ", b"\t", "a\u{a0}".as_bytes()].contains(v))).filter(|v| *v != b"\n\n" && *v != b"\r\n").collect();
+                let mut core_bytes = core.clone();
+                core_bytes.extend([&b"\xff"[..], b"\xff\n"]);
+                let mut only_three = |c: Case| {
+                    let n = [&c.protocol, &c.host, &c.path, &c.username, &c.password, &c.url].iter().filter(|v| v.as_ref().map_or(false, |v| !plain.contains(&&v.0[..]))).count();
+                    if n == 3 {
+                        emit(c)
+                    }
+                };
+                rec(0, 0, 3, &mut Vec::new(), &plain, &core, &core_bytes, true, &mut only_three);
+            }
         },
         eval,
     );
